@@ -26,7 +26,7 @@ def one(n):
         subprocess.run(['rsync', '-a', os.path.join(VERIF, '.cache') + '/', _tl.cache + '/'])
     pid = json.load(open(os.path.join(VERIF, 'seeded', n, 'meta.json')))['property']
     p = subprocess.run([sys.executable, os.path.join(VERIF, 'lib', 'seed_verify.py'), os.path.join(VERIF, 'seeded', n), pid, '--no-confirm'],
-                       capture_output=True, text=True, env=dict(os.environ, VERIF_CACHE_DIR=_tl.cache))
+                       capture_output=True, text=True, env=dict(os.environ, VERIF_CACHE_DIR=_tl.cache, VERIF_SCRATCH_ROOT=_tl.cache.replace('cache', 'scratch')))
     return n, p.stdout + p.stderr[-2000:]
 with ThreadPoolExecutor(max_workers=j) as ex:
     for n, out in ex.map(one, names):
